@@ -41,6 +41,23 @@ theorem C08_static_variants_write :
     Gen.st_nonreentrant.all (fun f => (reach Gen.st_funcs Gen.st_funcs.length [f]).any (writesStatic Gen.st_funcs)) = true := by
   decide +kernel
 
+/-- libc / run-time functions the re-entrant entry points may call: every one of them is MT-Safe per POSIX and the glibc manual
+    (`strtoul`, `snprintf`: "MT-Safe locale"; `__errno_location`: thread-local; the allocator and the mapping calls are thread-safe;
+    `__assert_fail` ends the process).  A function that keeps state in a static libc buffer (`l64a`, `strtok`, `getpass`, `rand`,
+    `strerror`, ...) is not on this list. -/
+def mtSafe : List String :=
+  ["__assert_fail", "__errno_location", "abort", "arc4random_buf", "getentropy", "getrandom", "open", "read", "close",
+   "explicit_bzero", "free", "malloc", "calloc", "realloc", "posix_memalign", "aligned_alloc", "mmap", "munmap", "madvise",
+   "memcmp", "memcpy", "memmove", "memset", "memchr", "strlen", "strnlen", "strcmp", "strncmp", "strchr", "strrchr", "strspn", "strcspn",
+   "strcpy", "strncpy", "strtoul", "snprintf"]
+
+set_option maxRecDepth 1000000 in
+/-- every external function reachable from the re-entrant entry points is on the MT-safe list: no hidden shared state in libc -/
+theorem C08_imports :
+    (reach Gen.st_funcs Gen.st_funcs.length Gen.st_reentrant).all
+      (fun f => (Gen.st_ext.getD f []).all (fun e => mtSafe.contains e)) = true := by
+  decide +kernel
+
 /-- the interleaving theorem, restated for API calls: thread `t` performs its calls `calls t` in order; each call
     maps the thread's own objects to new ones using only the (immutable) library data; then for every schedule
     thread `t` ends with exactly what it computes alone -/
